@@ -2,6 +2,10 @@ import Mathlib.Tactic.FieldSimp
 import Mathlib.Tactic.Linarith
 import Mathlib.Tactic.Ring
 import Mathlib.Analysis.SpecialFunctions.Exp
+import Mathlib.Analysis.SpecialFunctions.ExpDeriv
+import Mathlib.Analysis.SpecialFunctions.Trigonometric.DerivHyp
+import Mathlib.Analysis.Calculus.Deriv.MeanValue
+import Mathlib.MeasureTheory.Integral.IntervalIntegral.FundThmCalculus
 import CopVerif.Real.Inst
 import CopVerif.Model.BivFit
 /-!
@@ -493,4 +497,153 @@ theorem debyeIntegrand_pos_of_neg {t : ℝ} (ht : t < 0) : 0 < Gen.Frank.debyeIn
   exact div_pos_of_neg_of_neg ht (by linarith)
 
 end real
+
+/-! ### Frank: monotonicity of `τ(θ)` on the positive branch (partial)
+
+With `quad` read as the exact interval integral and a lower limit `ε > 0` (the code's `EPSILON`),
+the residual `a ↦ τ(a) − τ` is strictly increasing on `[ε, ∞)`:
+`τ'(a) = 4 N(a)/a³`, `N(a) = a + a d(a) − 2∫_ε^a d`, `N(ε) > 0`,
+`N'(a) = ((eᵃ−1)² − a² eᵃ)/(eᵃ−1)² ≥ 0` because `sinh (a/2) ≥ a/2`. -/
+section frankMono
+open Real MeasureTheory intervalIntegral
+
+/-- the Debye integrand `t/(eᵗ−1)` -/
+noncomputable def dbe (t : ℝ) : ℝ := t / (Real.exp t - 1)
+
+theorem bridge_dbe : (Gen.Frank.debyeIntegrand : ℝ → ℝ) = dbe := by
+  funext t; simp [Gen.Frank.debyeIntegrand, dbe]
+
+theorem exp_sub_one_pos {t : ℝ} (ht : 0 < t) : 0 < Real.exp t - 1 := by
+  have := Real.add_one_lt_exp ht.ne'; linarith
+
+theorem dbe_continuousOn : ContinuousOn dbe (Set.Ioi 0) := by
+  unfold dbe
+  refine ContinuousOn.div continuousOn_id (by fun_prop) ?_
+  intro t ht; exact (exp_sub_one_pos ht).ne'
+
+theorem dbe_hasDerivAt {t : ℝ} (ht : 0 < t) :
+    HasDerivAt dbe ((1 * (Real.exp t - 1) - t * Real.exp t) / (Real.exp t - 1) ^ 2) t := by
+  have h1 : HasDerivAt (fun t => Real.exp t - 1) (Real.exp t) t :=
+    (Real.hasDerivAt_exp t).sub_const 1
+  exact (hasDerivAt_id t).div h1 (exp_sub_one_pos ht).ne'
+
+/-- `I ε a = ∫_ε^a t/(eᵗ−1) dt` -/
+noncomputable def I (ε a : ℝ) : ℝ := ∫ t in ε..a, dbe t
+
+theorem I_hasDerivAt {ε a : ℝ} (hε : 0 < ε) (ha : 0 < a) : HasDerivAt (I ε) (dbe a) a := by
+  unfold I
+  apply intervalIntegral.integral_hasDerivAt_right
+  · apply ContinuousOn.intervalIntegrable
+    apply dbe_continuousOn.mono
+    intro x hx
+    rcases Set.mem_uIcc.1 hx with h | h
+    · exact lt_of_lt_of_le hε h.1
+    · exact lt_of_lt_of_le ha h.1
+  · exact dbe_continuousOn.stronglyMeasurableAtFilter isOpen_Ioi a ha
+  · exact dbe_continuousOn.continuousAt (Ioi_mem_nhds ha)
+
+theorem key_ineq {a : ℝ} (ha : 0 ≤ a) : a ^ 2 * Real.exp a ≤ (Real.exp a - 1) ^ 2 := by
+  have hs : a / 2 ≤ Real.sinh (a / 2) := Real.self_le_sinh_iff.2 (by linarith)
+  rw [Real.sinh_eq] at hs
+  have hy0 : 0 < Real.exp (a / 2) := Real.exp_pos _
+  have hinv : Real.exp (-(a / 2)) = (Real.exp (a / 2))⁻¹ := Real.exp_neg _
+  have hsq : Real.exp a = Real.exp (a / 2) ^ 2 := by
+    rw [sq, ← Real.exp_add]; congr 1; ring
+  rw [hinv] at hs
+  generalize Real.exp (a / 2) = y at *
+  have h1 : a * y ≤ y ^ 2 - 1 := by
+    have h2 : a ≤ y - y⁻¹ := by linarith
+    have h3 := mul_le_mul_of_nonneg_right h2 hy0.le
+    rw [sub_mul, inv_mul_cancel₀ hy0.ne'] at h3
+    nlinarith
+  rw [hsq]
+  have h0 : 0 ≤ a * y := mul_nonneg ha hy0.le
+  have := pow_le_pow_left₀ h0 h1 2
+  nlinarith
+
+/-- numerator of `τ'(a)`: `N(a) = a + a·d(a) − 2 I(a)` -/
+noncomputable def N (ε a : ℝ) : ℝ := a + a * dbe a - 2 * I ε a
+
+theorem N_hasDerivAt {ε a : ℝ} (hε : 0 < ε) (ha : 0 < a) :
+    HasDerivAt (N ε)
+      (((Real.exp a - 1) ^ 2 - a ^ 2 * Real.exp a) / (Real.exp a - 1) ^ 2) a := by
+  have hd := dbe_hasDerivAt ha
+  have hI := I_hasDerivAt hε ha
+  have h : HasDerivAt (fun x => x + x * dbe x - 2 * I ε x)
+      (1 + (1 * dbe a + a * ((1 * (Real.exp a - 1) - a * Real.exp a) / (Real.exp a - 1) ^ 2))
+        - 2 * dbe a) a :=
+    ((hasDerivAt_id' a).add ((hasDerivAt_id' a).mul hd)).sub (hI.const_mul 2)
+  have hne : Real.exp a - 1 ≠ 0 := (exp_sub_one_pos ha).ne'
+  have h' : HasDerivAt (N ε) _ a := h
+  refine h'.congr_deriv ?_
+  simp only [dbe]
+  field_simp
+  ring
+
+theorem N_pos {ε a : ℝ} (hε : 0 < ε) (ha : ε ≤ a) : 0 < N ε a := by
+  have hmono : MonotoneOn (N ε) (Set.Ici ε) := by
+    apply monotoneOn_of_deriv_nonneg (convex_Ici ε)
+    · intro x hx
+      exact (N_hasDerivAt hε (lt_of_lt_of_le hε hx)).continuousAt.continuousWithinAt
+    · intro x hx
+      rw [interior_Ici] at hx
+      exact (N_hasDerivAt hε (lt_trans hε hx)).differentiableAt.differentiableWithinAt
+    · intro x hx
+      rw [interior_Ici] at hx
+      have hx0 : 0 < x := lt_trans hε hx
+      rw [(N_hasDerivAt hε hx0).deriv]
+      apply div_nonneg
+      · have := key_ineq hx0.le; linarith
+      · positivity
+  have h0 : 0 < N ε ε := by
+    simp only [N, I, intervalIntegral.integral_same, mul_zero, sub_zero]
+    have : 0 < dbe ε := div_pos hε (exp_sub_one_pos hε)
+    have := mul_pos hε this
+    linarith
+  exact lt_of_lt_of_le h0 (hmono Set.self_mem_Ici ha ha)
+
+/-- `τ(a) − τ` with the exact integral for `quad` -/
+noncomputable def T (ε τ a : ℝ) : ℝ := 4 * (I ε a / a - 1) / a + 1 - τ
+
+theorem T_hasDerivAt {ε τ a : ℝ} (hε : 0 < ε) (ha : 0 < a) :
+    HasDerivAt (T ε τ) (4 * N ε a / a ^ 3) a := by
+  have hI := I_hasDerivAt hε ha
+  have h1 : HasDerivAt (fun x => I ε x / x) ((dbe a * a - I ε a * 1) / a ^ 2) a :=
+    hI.div (hasDerivAt_id' a) ha.ne'
+  have h2 : HasDerivAt (fun x => 4 * (I ε x / x - 1) / x)
+      ((4 * ((dbe a * a - I ε a * 1) / a ^ 2) * a - 4 * (I ε a / a - 1) * 1) / a ^ 2) a :=
+    ((h1.sub_const 1).const_mul 4).div (hasDerivAt_id' a) ha.ne'
+  have h3 : HasDerivAt (T ε τ) _ a := (h2.add_const 1).sub_const τ
+  refine h3.congr_deriv ?_
+  simp only [N]
+  field_simp
+  ring
+
+theorem T_strictMonoOn {ε τ : ℝ} (hε : 0 < ε) : StrictMonoOn (T ε τ) (Set.Ici ε) := by
+  apply strictMonoOn_of_deriv_pos (convex_Ici ε)
+  · intro x hx
+    exact (T_hasDerivAt hε (lt_of_lt_of_le hε hx)).continuousAt.continuousWithinAt
+  · intro x hx
+    rw [interior_Ici] at hx
+    have hx0 : 0 < x := lt_trans hε hx
+    rw [(T_hasDerivAt hε hx0).deriv]
+    have := N_pos hε hx.le
+    positivity
+
+theorem bridge_tauResidual (ε τ a : ℝ) :
+    Gen.Frank.tauResidual (fun f lo hi => ∫ t in lo..hi, f t) ε τ a = T ε τ a := by
+  simp only [Gen.Frank.tauResidual, bridge_dbe, T, I, ofNat_real]
+  push_cast
+  ring
+
+
+/-- Two zeros of the residual in `[ε, ∞)` coincide. -/
+theorem frank_root_unique {ε τ a b : ℝ} (hε : 0 < ε) (ha : ε ≤ a) (hb : ε ≤ b)
+    (ra : Gen.Frank.tauResidual (fun f lo hi => ∫ t in lo..hi, f t) ε τ a = 0)
+    (rb : Gen.Frank.tauResidual (fun f lo hi => ∫ t in lo..hi, f t) ε τ b = 0) : a = b := by
+  rw [bridge_tauResidual] at ra rb
+  exact (T_strictMonoOn (τ := τ) hε).injOn ha hb (ra.trans rb.symm)
+
+end frankMono
+
 end CopVerif.BivFit
